@@ -11,6 +11,9 @@
 //   G (store.Get)  B<id> (store.GetByID)  I (observe ID/Fresh)  g<key>  s<key>=<val>  d<key>  K (keys)
 //   D (Destroy)  R (Regenerate)  X (Reset)  T<secs> (SetIdleTimeout)  S (Save)  L (Release)
 //   Z<id> (store.Delete)  W (store.Reset)
+//   c:<id>:<p|t|g>:<n>   damage the blob stored under <id> (injected storage only; see corrupt.go); obs c0 | c1
+// A request whose middleware panics (decode error of a damaged blob) is observed as `panic`; a store.Get /
+// GetByID that returns an error which is none of the package's sentinel errors is observed as `err`.
 // Observation per `r` op: <action obs `.`-separated>,<ck>,<hd>,<gens>,<live storage keys>
 //   ck = Set-Cookie of the session cookie: cnone | cexp | c<hex>;  hd = response header: hnone | h<hex>
 package main
@@ -19,6 +22,7 @@ import (
 	"fmt"
 	"io"
 	"os"
+	"runtime"
 	"runtime/debug"
 	"sort"
 	"strconv"
@@ -97,7 +101,9 @@ type cfgIn struct {
 }
 
 type op struct {
-	kind             string // "a" | "r" | "b" (begin) | "s" (step) | "e" (end)
+	kind             string // "a" | "r" | "b" (begin) | "s" (step) | "e" (end) | "c" (corrupt)
+	cid, ckind       string // corrupt: id, kind
+	cn               int    // corrupt: offset selector
 	rid              int
 	secs             int
 	api              string // "m" | "s"
@@ -108,6 +114,9 @@ type op struct {
 func (o op) String() string {
 	if o.kind == "a" {
 		return "a:" + strconv.Itoa(o.secs)
+	}
+	if o.kind == "c" {
+		return "c:" + gen.Hex(o.cid) + ":" + o.ckind + ":" + strconv.Itoa(o.cn)
 	}
 	if o.kind == "s" || o.kind == "e" {
 		return o.kind + ":" + strconv.Itoa(o.rid)
@@ -146,6 +155,13 @@ func parseOp(s string) (o op, ok bool) {
 			return o, false
 		}
 		return op{kind: "a", secs: n}, true
+	case len(f) == 4 && f[0] == "c" && (f[2] == "p" || f[2] == "t" || f[2] == "g"):
+		n, err := strconv.Atoi(f[3])
+		if err != nil || n < 0 || n > 999 {
+			return o, false
+		}
+		o = op{kind: "c", cid: gen.UnHex(f[1]), ckind: f[2], cn: n}
+		return o, idSafe(o.cid)
 	case len(f) == 2 && (f[0] == "s" || f[0] == "e"):
 		n, err := strconv.Atoi(f[1])
 		if err != nil || n < 0 || n > 99 {
@@ -230,6 +246,8 @@ type world struct {
 	h     fasthttp.RequestHandler
 	store *session.Store
 	keys  keyser
+	inj   *mapStorage // the injected storage, if configured (corrupt ops reach into it)
+	wr    *gen.Writer // distribution counters (may be nil)
 	gens  []string
 	nid   int
 	acts  []string // action observations of the current request
@@ -246,6 +264,7 @@ func newWorld(c cfgIn) (w *world, panicked bool) {
 			w, panicked = nil, true
 		}
 	}()
+	flushPool()
 	w = &world{cfg: c}
 	conf := session.Config{
 		AbsoluteTimeout: time.Duration(c.abs) * time.Second,
@@ -275,7 +294,8 @@ func newWorld(c cfgIn) (w *world, panicked bool) {
 	}
 	switch strings.TrimSuffix(c.storage, "N") {
 	case "inj":
-		conf.Storage = newMapStorage()
+		w.inj = newMapStorage()
+		conf.Storage = w.inj
 	case "mem":
 	default:
 		panic("bad storage")
@@ -576,6 +596,8 @@ func runCase(c cfgIn, ops []op) string {
 			out[i] = "-"
 		case "b", "s", "e":
 			out[i] = w.event(o)
+		case "c":
+			out[i] = w.corrupt(o)
 		default:
 			out[i] = w.do(o)
 		}
@@ -648,6 +670,11 @@ func replay(wr *gen.Writer, file string) {
 
 func main() {
 	debug.SetGCPercent(-1) // see chunk.go
+	// one P: sync.Pool keeps a released object in the per-P private slot, so the next acquire on the same
+	// P gets that very object back. With one P "the next request draws the Session the last one released"
+	// holds deterministically (a sleeping goroutine may otherwise resume on another P and a leftover of a
+	// failed load would surface in some later, unrelated case).
+	runtime.GOMAXPROCS(1)
 	log.SetOutput(io.Discard)
 	o := gen.ParseFlags()
 	if o.Replay == "" && *flagLo < 0 && o.N > chunkSize {
@@ -682,7 +709,16 @@ func main() {
 		case "seq":
 			sched = false
 		}
-		if sched {
+		corrupt := i%12 == 7 // one history in twelve has a damaged blob (corrupt.go); the others are as before
+		switch os.Getenv("C15_MODE") {
+		case "corrupt":
+			corrupt = true
+		case "sched", "seq":
+			corrupt = false
+		}
+		if corrupt {
+			c, ops, obs = genCorrupt(r, wr)
+		} else if sched {
 			c, ops, obs = genSchedule(r, wr)
 		} else {
 			c, ops, obs = genCase(r, wr)
